@@ -1398,6 +1398,25 @@ pub fn check_c11(ix: &Ix<'_>, v: &mut Vec<Violation>) {
     }
 }
 
+pub fn probe_c07(ix: &Ix<'_>) -> bool {
+    // something was in flight when the connection ended
+    let conn = 0usize;
+    let Some(end) = ix
+        .stops
+        .iter()
+        .filter(|s| s.1 == conn)
+        .map(|s| s.0)
+        .chain(ix.conn_done.iter().filter(|c| c.1 == conn).map(|c| c.0))
+        .chain(ix.ep_closed.iter().filter(|c| c.1 == conn).map(|c| c.0))
+        .min()
+    else {
+        return false;
+    };
+    let handler = ix.gates.iter().any(|g| g.conn == conn && matches!(g.kind, GateKind::Publish | GateKind::Proto) && g.enter < end && g.exit.as_ref().is_none_or(|x| x.0 >= end));
+    let op = ix.ops.iter().any(|o| o.start < end && o.done.as_ref().is_none_or(|d| d.0 >= end));
+    handler || op
+}
+
 pub fn probe_c12(ix: &Ix<'_>) -> bool {
     // a configured limit was reached
     let cfg = &ix.out.plan.cfg;
@@ -1614,7 +1633,6 @@ pub fn check_c07(ix: &Ix<'_>, v: &mut Vec<Violation>) {
         .into_iter()
         .chain(ix.conn_done.iter().filter(|c| c.1 == conn).map(|c| c.0))
         .chain(ix.ep_closed.iter().filter(|c| c.1 == conn).map(|c| c.0))
-        .chain(ix.peer_close.iter().filter(|c| c.1 == conn).map(|c| c.0))
         .min()
         .unwrap_or(ix.last_seq);
 
@@ -1639,36 +1657,86 @@ pub fn check_c07(ix: &Ix<'_>, v: &mut Vec<Violation>) {
                     _ => false,
                 }
         });
-        match class {
-            StopClass::PeerGone(_) => {
-                if !peer_gone_cause {
-                    viol(v, "C07", format!("C07/stop-reason/{role}/peer-gone-without-cause"), format!("Stop({class:?}) but the peer had not closed, nothing was closed locally and no write failed"), *sq);
+        // protocol-error causes visible in the history
+        // (the decoder may reject a frame before its last byte arrived)
+        let corrupt_delivered = ix.sent.iter().any(|s| s.conn == conn && s.corrupt && s.seq <= *sq);
+        let keepalive_cfg = if out.plan.role.is_server() { out.plan.peer.connect.keep_alive < 30 } else { out.plan.cfg.client_keepalive_s != 0 };
+        let streaming_op = out.plan.senders.iter().flatten().any(|o| matches!(o, crate::plan::AppOp::StreamQ0 { .. } | crate::plan::AppOp::StreamQ1 { .. }));
+        let violation_sent = {
+            let pubs: Vec<&Sent> = ix.sent.iter().filter(|s| s.conn == conn && s.seq <= *sq && matches!(s.pkt, Some(Pkt::Publish(_)))).collect();
+            let second_connect = ix.sent.iter().filter(|s| s.conn == conn && s.seq <= *sq && matches!(s.pkt, Some(Pkt::Connect(_)))).count() > usize::from(out.plan.role.is_server());
+            let alias = pubs.iter().any(|s| matches!(&s.pkt, Some(Pkt::Publish(p)) if p.topic.is_empty()));
+            let dup_id = pubs.iter().enumerate().any(|(i, a)| {
+                pubs[..i].iter().any(|b| matches!((&a.pkt, &b.pkt), (Some(Pkt::Publish(x)), Some(Pkt::Publish(y))) if x.pid.is_some() && x.pid == y.pid))
+            });
+            // MQTT 3.1.1: a server never sends DISCONNECT
+            let disconnect_to_v3_client = out.plan.role == crate::world::Role::C3 && ix.sent.iter().any(|s| s.conn == conn && s.seq <= *sq && matches!(s.pkt, Some(Pkt::Disconnect(_))));
+            // nothing may follow the peer's own DISCONNECT
+            let after_disconnect = ix.sent.iter().find(|s| s.conn == conn && matches!(s.pkt, Some(Pkt::Disconnect(_)))).is_some_and(|d| ix.sent.iter().any(|s| s.conn == conn && s.seq > d.seq && s.seq <= *sq));
+            second_connect || alias || dup_id || disconnect_to_v3_client || after_disconnect
+        };
+        let cause_names = format!(
+            "{}{}{}{}{}{}",
+            if peer_gone_cause { "P" } else { "" },
+            if app_err_cause { "A" } else { "" },
+            if corrupt_delivered { "D" } else { "" },
+            if violation_sent { "V" } else { "" },
+            if keepalive_cfg { "K" } else { "" },
+            if streaming_op { "S" } else { "" }
+        );
+        // Accepted consequences (the cause is real, the class names what the library met next):
+        //  - a failing handler makes the library close the io itself: PeerGone(None) may win the race;
+        //  - payload chunks that arrive after the payload receiver was dropped (failed handler, refused
+        //    publish, local close, peer gone) are reported as Decode(UnexpectedPayload);
+        //  - acknowledgements that arrive after a local close / write failure / failed handler find the queues cleared
+        //    and are reported as protocol violations (pinned by v3/v5 dispatcher unit tests).
+        let ok = match class {
+            StopClass::PeerGone(_) => peer_gone_cause || app_err_cause,
+            StopClass::AppError => app_err_cause,
+            StopClass::Protocol(m) => {
+                if m.contains("Decode(UnexpectedPayload)") {
+                    corrupt_delivered || violation_sent || app_err_cause || peer_gone_cause
+                } else if m.contains("Decode(") {
+                    corrupt_delivered
+                } else if m.contains("KeepAlive") {
+                    keepalive_cfg
+                } else if m.contains("Encode(") {
+                    streaming_op
+                } else if (peer_gone_cause || app_err_cause) && (m.contains("while there are no unacknowledged") || m.contains("does not match expected next value")) {
+                    true
+                } else {
+                    violation_sent || corrupt_delivered
                 }
             }
-            StopClass::AppError => {
-                if !app_err_cause {
-                    viol(v, "C07", format!("C07/stop-reason/{role}/app-error-without-failing-handler"), format!("Stop({class:?}) but no handler had failed"), *sq);
-                }
-            }
-            StopClass::Protocol(_) => {}
-        }
-        // undecodable input / violation that was delivered and dispatched before anything else ended
-        // the connection must be reported as a protocol error
-        let corrupt_first = ix.sent.iter().find(|s| s.conn == conn && s.corrupt && s.delivered.is_some_and(|d| d < *sq));
-        if let Some(c) = corrupt_first
-            && !matches!(class, StopClass::Protocol(_))
-            && !peer_gone_cause
-            && !app_err_cause
-        {
-            viol(v, "C07", format!("C07/stop-reason/{role}/undecodable-input-not-protocol"), format!("undecodable input was delivered at step {:?} and nothing else had happened, yet Stop({class:?})", c.delivered), *sq);
+        };
+        if !ok {
+            let cls = match class {
+                StopClass::PeerGone(_) => "peer-gone".to_string(),
+                StopClass::AppError => "app-error".to_string(),
+                StopClass::Protocol(m) => format!("protocol-{}", m.split(['(', ' ', '{']).next().unwrap_or("")),
+            };
+            viol(
+                v,
+                "C07",
+                format!("C07/stop-reason/{role}/{cls}/causes-{}", if cause_names.is_empty() { "none" } else { &cause_names }),
+                format!("Stop({class:?}) does not name any cause present in the history (P=peer gone/local close, A=handler failed, D=undecodable input, V=protocol violation, K=keep-alive configured, S=streamed send)"),
+                *sq,
+            );
         }
     }
     // (C) the connection task completes
     if !ix.conn_done.iter().any(|c| c.1 == conn) {
         viol(v, "C07", format!("C07/task-not-completed/{role}"), "the connection ended but the connection task never completed".into(), ix.last_seq);
     }
+    let stop_handled = stop.map(|s| {
+        ix.gates
+            .iter()
+            .find(|g| g.conn == conn && g.kind == GateKind::Control)
+            .map_or(s.0, |g| g.exit.as_ref().map_or(u64::MAX, |x| x.0))
+    });
     // (D) every started send / readiness future resolved; the ones that were pending when the
     // connection ended resolve with an error
+    let end_seq = stop_handled.unwrap_or(end_seq).max(end_seq);
     for o in &ix.ops {
         if o.brief.starts_with("Close") || o.brief.starts_with("ForceClose") {
             continue;
@@ -1679,7 +1747,10 @@ pub fn check_c07(ix: &Ix<'_>, v: &mut Vec<Violation>) {
                 viol(v, "C07", format!("C07/op-left-waiting/{role}/{kind}"), format!("sender {} op {} ({}) started at step {} never resolved after the connection ended", o.sender, o.op, o.brief, o.start), ix.last_seq);
             }
             Some((dq, OpResult::Err(e))) => {
-                if *dq >= end_seq && !e.contains("Disconnected") && !e.contains("Cancelled") {
+                // a future that was pending (parked or awaiting its ack) across the end of the connection;
+                // calls that fail on the spot may report whatever made them fail
+                let pending = *dq > o.start && o.start < end_seq;
+                if pending && *dq >= end_seq && !e.contains("Disconnected") && !e.contains("Cancelled") && e != "ready:false" {
                     viol(v, "C07", format!("C07/op-wrong-error/{role}/{kind}"), format!("sender {} op {} ({}) resolved with {e} after the connection ended", o.sender, o.op, o.brief), *dq);
                 }
             }
@@ -1688,12 +1759,6 @@ pub fn check_c07(ix: &Ix<'_>, v: &mut Vec<Violation>) {
     }
     // (E)/(G) handlers: a payload reader that was waiting observes an error; nothing is left waiting;
     // (F) handlers are cancelled only after the Stop notification has been handled
-    let stop_handled = stop.map(|s| {
-        ix.gates
-            .iter()
-            .find(|g| g.conn == conn && g.kind == GateKind::Control)
-            .map_or(s.0, |g| g.exit.as_ref().map_or(u64::MAX, |x| x.0))
-    });
     for g in ix.gates.iter().filter(|g| g.conn == conn && matches!(g.kind, GateKind::Publish | GateKind::Proto)) {
         let what = match &g.desc {
             GateDesc::Publish(p) => format!("publish handler of {:?}", p.topic),
@@ -1707,7 +1772,16 @@ pub fn check_c07(ix: &Ix<'_>, v: &mut Vec<Violation>) {
         }
         if let Some(d) = g.dropped {
             if g.exit.is_none() && g.payload_wait.is_some() {
-                viol(v, "C07", format!("C07/reader-not-notified/{role}"), format!("{what} was waiting for payload data when the connection ended and was cancelled without observing an error"), d);
+                // did the dispatcher get polled again between the Stop notification and the cancellation?
+                // (the notification completing within the very poll that delivered it leaves the handler
+                // that runs in place no chance to be polled)
+                let ctl_pending = ix.gates.iter().any(|c| c.conn == conn && c.kind == GateKind::Control && c.exit.as_ref().is_none_or(|x| x.0 > c.enter));
+                let how = match stop {
+                    Some(_) if !ctl_pending => "stop-handled-within-one-poll",
+                    Some(_) => "stop-handled-later",
+                    None => "no-stop",
+                };
+                viol(v, "C07", format!("C07/reader-not-notified/{role}/{how}"), format!("{what} was waiting for payload data when the connection ended and was cancelled without observing an error"), d);
             }
             if let Some(h) = stop_handled
                 && g.exit.is_none()
